@@ -826,7 +826,8 @@ class Model(Object):
 
         context = get_context(self)
 
-        for reaction in reactions:
+        # the argument may be the model's own list, which shrinks while we iterate
+        for reaction in list(reactions):
             # Make sure the reaction is in the model
             try:
                 reaction = self.reactions[self.reactions.index(reaction)]
